@@ -314,6 +314,11 @@ impl Matrix {
             );
             self.nrows = nrows as usize;
             self.ncols = size / nrows as usize;
+        } else if nrows == 0 && ncols == 0 {
+            // the empty matrix (e.g. the result of an element-wise operation on `Matrix::empty()`)
+            assert_eq!(size, 0, "invalid shape");
+            self.nrows = 0;
+            self.ncols = 0;
         } else {
             panic!("invalid shape");
         }
